@@ -15,12 +15,24 @@ FoldMC == [c \in {"A", "X", "AB", "B"} |-> CASE c = "A" -> "a" [] c = "X" -> "x"
 Queries == {<<"x">>, <<"X">>, <<"a", "x">>, <<"A", "X">>, <<"ab", "x">>, <<"a", "b", "x">>, <<"b", "x">>, <<"B", "x">>}
 Folders == {<<>>, <<"a">>, <<"A">>, <<"ab">>, <<"a", "b">>, <<"b">>, <<"x">>}
 
+\* some fixed strict order on names of equal length (only its being an order matters)
+NameIdx(n) == CHOOSE k \in 1..6 : <<<<"a", "x">>, <<"a", "X">>, <<"ab", "x">>, <<"a", "b", "x">>, <<"x">>, <<"A", "x">>>>[k] = n
+\* The single-backend family: containers as SEQUENCES of up to 3 entries.  Only the relative order
+\* of entries that fold to the same name matters, so entries are grouped by folded name (groups in
+\* a fixed order) and every order within a group is taken; a name may also be stored twice
+\* (sequences with a repeat up to length R).
+ClassRank(n) == Min({NameIdx(x) : x \in {y \in NamesMC : Key(FoldMC, y) = Key(FoldMC, n)}})
+Injective(q) == \A a, b \in 1..Len(q) : a # b => q[a] # q[b]
+SeqFamily(R) == {q \in UNION {[1..L -> NamesMC] : L \in 0..3} :
+                    /\ \A a, b \in 1..Len(q) : a < b => ClassRank(q[a]) <= ClassRank(q[b])
+                    /\ (Injective(q) \/ Len(q) <= R)}
 NameSets == {S \in SUBSET Names : Cardinality(S) <= MaxFiles}
 VARIABLES chain,   \* sequence of [names, pfx, k]; k = how many-th member added (its contents are <<k, name>>)
           act
 vars == <<chain>>
 
-FsOf(m) == {[n |-> n, c |-> <<m.k, n>>] : n \in m.names}
+\* the model fixes one container order per name set (the harness replays both orders)
+FsOf(m) == {[n |-> n, c |-> <<m.k, n>>, i |-> NameIdx(n)] : n \in m.names}
 Sem(ch) == [i \in 1..Len(ch) |-> [fs |-> FsOf(ch[i]), pfx |-> ch[i].pfx]]
 C == Sem(chain)
 
@@ -33,7 +45,7 @@ Spec == Init /\ [][Next]_vars
 
 (* ---- the property ------------------------------------------------------------ *)
 \* walking the empty folder lists every file; every walked file is in the folder
-WalkAll == \A i \in 1..Len(C) : Walk(FoldMC, C[i].fs, <<>>) = C[i].fs
+WalkAll == \A i \in 1..Len(C) : Walk(FoldMC, C[i].fs, <<>>) = {f \in C[i].fs : IsWinner(FoldMC, C[i].fs, f)}
 \* every name the chain lists can be looked up and yields that file; each name once
 WalkedLookupable ==
     \A d \in Folders : \A key \in ChainWalkKeys(FoldMC, C, d) :
@@ -68,7 +80,8 @@ ComposeRefines ==
             /\ \A j, k \in 1..Len(out) : j # k => Key(FoldMC, out[j].n) # Key(FoldMC, out[k].n)
 
 \* size of the single-backend family the driver claims to cover (file sets of up to 3 names)
-ASSUME PrintT(ToJson([tag |-> "COUNT", namesets |-> Cardinality({S \in SUBSET NamesMC : Cardinality(S) <= 3})]))
+ASSUME PrintT(ToJson([tag |-> "COUNT", namesets |-> Cardinality({S \in SUBSET NamesMC : Cardinality(S) <= 3}),
+                      seqs2 |-> Cardinality(SeqFamily(2)), seqs3 |-> Cardinality(SeqFamily(3))]))
 
 View == vars
 Obs(ch) == [i \in 1..Len(ch) |-> [names |-> ch[i].names, pfx |-> ch[i].pfx, k |-> ch[i].k]]
